@@ -267,6 +267,44 @@ def body(run):
                                              pattern='lost-only' if not (masks[1] & ~masks[0]).any() and (exp is None or np.array_equal(masks[0], exp)) else 'other'))
             break
     run.cov['evaluations'] += 0
+    # ---- two bands whose invalid pixels differ (a hole in one band only): the partial mask of EACH band comes from that band's own validity
+    for k in range(run.scale(3, 12)):
+        ratio = rng.choice([2, 4])
+        sh = (rng.randint(10, 14) * ratio, rng.randint(10, 14) * ratio)
+        off = (rng.randint(1, 3), rng.randint(1, 3))
+        g = synth.Geom(rng.choice([0.5, 1.0, 2.0]), ratio, *rng.choice([(16.0, 48.0), (4.0, 100.0)]), (off[0] + sh[0] // ratio + rng.randint(1, 3), off[1] + sh[1] // ratio + rng.randint(1, 3)), off, sh)
+        kshape = rng.choice([(3, 3), (1, 3), (3, 5)])
+        yy, xx = np.mgrid[0:sh[0], 0:sh[1]]
+        src = np.stack([(40 + 1.75 * yy + 3.0 * xx).astype('float32'), (55 + 2.25 * yy + 1.5 * xx).astype('float32')])
+        valid = np.ones((2, *sh), bool)
+        which = k % 2           # the band that has the hole: the first or the second
+        r0, c0 = rng.randrange(sh[0] // 3, 2 * sh[0] // 3), rng.randrange(sh[1] // 3, 2 * sh[1] // 3)
+        valid[which, r0:r0 + rng.randint(1, 3), c0:c0 + rng.randint(1, 3)] = False
+        rm = np.ones(g.ref_shape, bool)
+        sfn, rfn = run.work / 'mb_src.tif', run.work / 'mb_ref.tif'
+        synth.write_tif(sfn, np.where(valid, src, np.float32('nan')), g.src_transform)
+        synth.write_tif(rfn, fz.texture(rng, g.ref_shape, 2, lo=30, hi=180), g.ref_transform)
+        try:
+            mbm, nblk = fz.pick_block_mem(sfn, rfn, 'auto', [1, 4][k % 2], kshape)
+            res = fz.fuse(sfn, rfn, run.work / 'mb.tif', model='gain', kernel_shape=kshape, proc_crs='auto', max_block_mem=mbm, param=False, force=True,
+                          src_bands=[1, 2], ref_bands=[1, 2], model_config=dict(mask_partial=True, r2_inpaint_thresh=None))
+        except Exception as ex:
+            dist['skipped:' + type(ex).__name__] = dist.get('skipped:' + type(ex).__name__, 0) + 1
+            continue
+        desc = dict(geom=g.describe(), bands=2, band_with_a_hole=which + 1, kernel_shape=list(kshape), model='gain', processing_grid=res['proc_crs'], blocks=nblk, max_block_mem=mbm)
+        dist['two-band/' + res['proc_crs']] = dist.get('two-band/' + res['proc_crs'], 0) + 1
+        run.count_case(('mb', k), True, desc if k < 1 else None)
+        if res['proc_crs'] != 'ref':
+            continue
+        for b in range(2):
+            exp = expected_mask(dict(smask=valid[b], rmask=rm), g, True, kshape)
+            got = np.isfinite(res['corr']['array'][b])
+            if not np.array_equal(got, exp):
+                d = np.argwhere(got != exp)[0]
+                run.add_violation('partial masking keeps / drops the wrong pixels', desc,
+                                  observed={f'band {b + 1} differs from "window grown by one fully supported"': dict(pixel=[int(d[0]), int(d[1])], got=bool(got[d[0], d[1]]), n_diff=int((got != exp).sum()))},
+                                  signature=dict(kind='partial-mask', grid='ref', parts=['two-band']))
+                break
     run.cov['rule'] = ('_full_coverage_mask on in-memory masks (input grid 1x / 2x / 4x finer, aligned) against the Gallina erosion in Coq; real fusions '
                        'with mask_partial=True on aligned dyadic geometries, both processing grids (source finer: ref grid; source equal / coarser: src grid), '
                        'kernels incl. h != w, 3 models, one block and 4..9 blocks: the corrected dataset mask must equal the characterisation computed '
